@@ -419,8 +419,8 @@ Inductive obs :=
 | OPaths (l : list (Z * list Z))                (* returned dict, as a list of (target, path) *)
 | OSet (ind : Z) (p : list Z)
 | OBorder (p : list Z)
-| OTypeError | OKeyError | ONoTarget | ONoBorder
-| OOther.                                       (* anything else *)
+| ORefused                                      (* the call raised an exception (class and message are free) *)
+| OOther.                                       (* anything else: an ill-formed answer, no answer in time *)
 
 Definition zl_eqb := list_eqb Z.eqb.
 
@@ -434,8 +434,14 @@ Definition run_border := shortest_path_to_border hq [] hq_push hq_pop.
 Definition run_sp_l := shortest_path lq [] lq_push lq_pop.
 Definition run_set_l := shortest_path_to_vertex_set lq [] lq_push lq_pop.
 
-Definition same_keys (a b : list (Z * list Z)) : bool :=
-  subset (map fst a) (map fst b) && subset (map fst b) (map fst a) && Nat.eqb (length a) (length b).
+(* keys: the answer has an entry for every target the model finds connected, and only requested targets; what is
+   stored for a target that is NOT connected to the start (an entry or none, its value) is left free *)
+Definition same_keys (model impl : list (Z * list Z)) : bool :=
+  subset (map fst impl) (map fst model)
+  && forallb (fun tp => match snd tp with [] => true | _ => mem (fst tp) (map fst impl) end) model.
+
+(* inputs the property does not speak about: any behaviour (refusal of any kind, or any answer) is accepted *)
+Definition all_vertices (m : mesh) (l : list Z) : bool := forallb (is_vertex m) l.
 
 Definition lookup (l : list (Z * list Z)) (t : Z) : option (list Z) :=
   match find (fun tp => Z.eqb (fst tp) t) l with Some (_, p) => Some p | None => None end.
@@ -444,8 +450,7 @@ Definition agree_paths (m : mesh) (ws : wspec) (s : Z) (model impl : list (Z * l
   same_keys model impl &&
   forallb (fun tp =>
     match lookup model (fst tp), snd tp with
-    | Some [], [] => true                             (* both say: not connected to the start *)
-    | Some [], _ :: _ => false
+    | Some [], _ => true                              (* not connected to the start: the entry is free *)
     | Some (_ :: _), [] => false
     | Some pm, pi => valid_path m s (fst tp) pi && valid_path m s (fst tp) pm
                      && wsame ws (path_weight (mweight m ws) pi) (path_weight (mweight m ws) pm)
@@ -461,32 +466,37 @@ Definition agree_set (m : mesh) (ws : wspec) (s : Z) (targets : list Z) (model i
 Definition check_query (m : mesh) (ws : wspec) (q : query) (o : obs) : bool :=
   match q with
   | QPath s ts =>
+      negb (is_vertex m s && all_vertices m ts) ||
       match run_sp m ws s ts, o with
       | Ok l, OPaths l' =>
           agree_paths m ws s l l' && match run_sp_l m ws s ts with Ok l2 => agree_paths m ws s l2 l' | _ => false end
-      | TypeError, OTypeError => true
-      | KeyError, OKeyError => true
+      | Ok _, _ => false
+      | _, ORefused => true                           (* the model of the code refuses too *)
       | _, _ => false
       end
   | QPath1 s k t =>
+      negb (is_vertex m s && is_vertex m t) ||
       match run_sp1 m ws s k t, o with
       | Ok l, OPaths l' => agree_paths m ws s l l'
-      | TypeError, OTypeError => true
-      | KeyError, OKeyError => true
+      | Ok _, _ => false
+      | _, ORefused => true
       | _, _ => false
       end
   | QSet s ts =>
+      negb (is_vertex m s && all_vertices m ts) || match ts with [] => true | _ => false end ||
       match run_set m ws s ts, o with
       | Ok r, OSet i p =>
-          (* identical answers agree (this covers the degenerate start = sink id, answered (start, [])) *)
-          (Z.eqb (fst r) i && zl_eqb (snd r) p) ||
-          (agree_set m ws s ts r (i, p) && match run_set_l m ws s ts with Ok r2 => agree_set m ws s ts r2 (i, p) | _ => false end)
-      | TypeError, OTypeError => true
-      | KeyError, OKeyError => true
-      | NoTarget, ONoTarget => true
+          match snd r with [] => true | _ => false end      (* one target, not connected: no connected pair, free *)
+          || (agree_set m ws s ts r (i, p)
+              && match run_set_l m ws s ts with Ok r2 => agree_set m ws s ts r2 (i, p) | _ => false end)
+      | Ok (_, []), _ => true
+      | Ok _, _ => false
+      | KeyError, _ => true                           (* no member is connected to the start: free *)
+      | _, ORefused => true
       | _, _ => false
       end
   | QBorder s =>
+      negb (is_vertex m s && all_vertices m (border m)) || match border m with [] => true | _ => false end ||
       match run_border m ws s, o with
       | Ok p, OBorder p' =>
           match p' with
@@ -494,9 +504,9 @@ Definition check_query (m : mesh) (ws : wspec) (q : query) (o : obs) : bool :=
           | a :: _ => let t := last p' a in
                       agree_set m ws s (border m) (last p s, p) (t, p')
           end
-      | TypeError, OTypeError => true
-      | KeyError, OKeyError => true
-      | NoBorder, ONoBorder => true
+      | Ok _, _ => false
+      | KeyError, _ => true
+      | _, ORefused => true
       | _, _ => false
       end
   end.
